@@ -27,6 +27,24 @@ func mkColl(id int64, name string, srcP, tgtP []string) *plColl {
 	return c
 }
 
+// kafkaIdentity: with a Kafka downstream the messages keep the source's addressing (collection id, partition ids,
+// virtual and physical channels)
+func kafkaIdentity(sc *plScenario) *plScenario {
+	sc.Kafka = true
+	sc.Name = "kafka:" + sc.Name
+	for _, c := range sc.Colls {
+		c.TgtID = c.ID
+		c.TgtParts = map[string]int64{}
+		for n, id := range c.Parts {
+			c.TgtParts[n] = id
+		}
+		for _, sh := range c.Shards {
+			sh.TgtV = sh.SrcV
+		}
+	}
+	return sc
+}
+
 // pack letters
 func pkIns(ms int64) plPack   { return plPack{Msgs: []plMsg{{Kind: "ins", Ms: ms}}, TickMs: ms, TickLg: 5} }
 func pkDel(ms int64) plPack   { return plPack{Msgs: []plMsg{{Kind: "del", Ms: ms}}, TickMs: ms, TickLg: 5} }
@@ -396,7 +414,30 @@ func TestVerifC01Stream(t *testing.T) {
 		c2.Shards[0].Script = []plPack{pkInsDelEq(1002)}
 		scs = append(scs, &plScenario{Name: "2colls-3streams", SrcN: 2, TgtN: 2, Colls: []*plColl{c1, c2}, Drivers: []plDriver{{Kind: "start", Coll: 0}, {Kind: "start", Coll: 1}}})
 	}
-	res.Rule = fmt.Sprintf("sched engine over the real replicateChannelManager fed by fakemq: (a) every single-stream script of <= %d packs over %d pack letters (insert, delete, insert+delete / two inserts at equal time, unsorted mixed pack, tick-only, BeginTs=0, create-partition / create-collection / unsupported messages, named-partition data, drop partition, drop collection), (b) two collections multiplexed on one source and one downstream channel, one collection on two shards ending in a drop, partition registration racing message arrival with the downstream learning the partition through the create event, three streams over two channels; scheduling points: stream delivery (free), driver start (free), the three verif yield points in handlePack/innerHandleReplicateMsg, the barrier signal; all schedules within the deviation bound; oracle: emitted non-tick messages per stream = source messages minus create/unsupported, in source-time order with deletes first at equal time, payload fingerprints equal, packs in read order with the stream's labels, nothing twice, nothing unread; non-trivial = executions in which two goroutines interleaved inside the handler", n, len(plLetters))
+	// Kafka downstream: the channel manager's other start path (no downstream catalog; the source's ids and channels
+	// address the messages, partition ids come from the source catalog)
+	{
+		one := 1
+		for _, sc := range plScriptScenarios(1, 0) {
+			sc.Bound = &one
+			scs = append(scs, kafkaIdentity(sc))
+		}
+		scs = append(scs,
+			kafkaIdentity(plSharedScenario("shared:2x2", []plPack{pkIns(1000), pkInsDelEq(1010)}, []plPack{pkDel(1001), pkTwoIns(1011)}, 0)),
+			kafkaIdentity(plShardedScenario("sharded:2-drop", 2, func(i int) []plPack { return []plPack{pkIns(int64(1000 + i)), pkDropColl(1020)} })))
+		c := mkColl(101, "c1", []string{"src-dml_0"}, []string{"src-dml_0"})
+		withPartition(c, true)
+		c.Shards[0].Script = []plPack{pkIns(1000), pkInsPart(1010), pkDropPart(1020), pkDel(1030)}
+		scs = append(scs, kafkaIdentity(&plScenario{Name: "partition-race", SrcN: 1, TgtN: 1, Colls: []*plColl{c},
+			Drivers: []plDriver{{Kind: "start", Coll: 0}, {Kind: "addpart", Coll: 0, Part: "p1", PartState: pb.PartitionState_PartitionCreated}}}))
+		// the partition is created after the collection was started: its id is learned lazily from the source catalog
+		c2 := mkColl(101, "c1", []string{"src-dml_0"}, []string{"src-dml_0"})
+		withPartition(c2, true)
+		c2.Shards[0].Script = []plPack{pkIns(1000), pkInsPart(1010), pkDropPart(1020), pkDel(1030)}
+		scs = append(scs, kafkaIdentity(&plScenario{Name: "partition-created-later", SrcN: 1, TgtN: 1, Colls: []*plColl{c2}, PartAppearsOnAnnounce: true,
+			Drivers: []plDriver{{Kind: "start", Coll: 0}, {Kind: "addpart", Coll: 0, Part: "p1", PartState: pb.PartitionState_PartitionCreated}}}))
+	}
+	res.Rule = fmt.Sprintf("sched engine over the real replicateChannelManager fed by fakemq: (a) every single-stream script of <= %d packs over %d pack letters (insert, delete, insert+delete / two inserts at equal time, unsorted mixed pack, tick-only, BeginTs=0, create-partition / create-collection / unsupported messages, named-partition data, drop partition, drop collection), (b) two collections multiplexed on one source and one downstream channel, one collection on two shards ending in a drop, partition registration racing message arrival with the downstream learning the partition through the create event, three streams over two channels, (c) Kafka downstream (the manager's other start path: source ids / channels / partition ids address the messages): every single-letter script, two multiplexed collections, a two-shard drop, a partition race; scheduling points: stream delivery (free), driver start (free), the three verif yield points in handlePack/innerHandleReplicateMsg, the barrier signal; all schedules within the deviation bound; oracle: emitted non-tick messages per stream = source messages minus create/unsupported, in source-time order with deletes first at equal time, payload fingerprints equal, packs in read order with the stream's labels, nothing twice, nothing unread; non-trivial = executions in which two goroutines interleaved inside the handler", n, len(plLetters))
 	plExplore(t, res, "C01", bound, scs, plCheck{props: "1"}, 150*time.Second)
 }
 
@@ -523,7 +564,14 @@ func TestVerifC02Routing(t *testing.T) {
 		sc.Bound = &one
 		scs = append(scs, sc)
 	}
-	res.Rule = "sched engine over the real channel manager: placements of source/downstream shards onto physical channels {renamed channels, downstream names sorting differently, channel names in a prefix relation (dml_1 / dml_10), two collections placed crosswise (forward path between handlers), downstream partition id learned through the create-partition event, downstream collection created through the create-collection event; thorough: 2:1 and 1:2 channel counts} plus every single-letter script; all start orders and schedules within the deviation bound; oracle per emitted message: downstream collection id, downstream partition id of the same-named partition, downstream vchannel paired by sorted order, arrival on the pchannel hosting that vchannel, every pack/message position naming that channel, source message id kept; non-trivial = executions with interleaving inside the handler"
+	// Kafka downstream: the addressing is the source's own
+	for _, sc := range plScriptScenarios(1, 0) {
+		sc.Bound = &one
+		scs = append(scs, kafkaIdentity(sc))
+	}
+	scs = append(scs, kafkaIdentity(plSharedScenario("shared:2x2", []plPack{pkIns(1000), pkInsDelEq(1010)}, []plPack{pkDel(1001), pkTwoIns(1011)}, 0)),
+		kafkaIdentity(plShardedScenario("sharded:2", 2, func(i int) []plPack { return []plPack{pkIns(int64(1000 + i)), pkInsDelEq(int64(1010 + i))} })))
+	res.Rule = "sched engine over the real channel manager: placements of source/downstream shards onto physical channels {renamed channels, downstream names sorting differently, channel names in a prefix relation (dml_1 / dml_10), two collections placed crosswise (forward path between handlers), downstream partition id learned through the create-partition event, downstream collection created through the create-collection event; thorough: 2:1 and 1:2 channel counts} plus every single-letter script; the single-letter scripts, two multiplexed collections and a two-shard collection also with a Kafka downstream (the source's own ids, partitions and channels address the messages); all start orders and schedules within the deviation bound; oracle per emitted message: downstream collection id, downstream partition id of the same-named partition, downstream vchannel paired by sorted order, arrival on the pchannel hosting that vchannel, every pack/message position naming that channel, source message id kept; non-trivial = executions with interleaving inside the handler"
 	plExplore(t, res, "C02", bound, scs, plCheck{props: "12"}, 150*time.Second)
 }
 
@@ -847,6 +895,31 @@ func plDropScenarios(thorough bool) ([]*plScenario, map[string]map[string]bool) 
 		three := 3
 		sc.Bound = &three
 		out = append(out, sc)
+	}
+	// Kafka downstream: drops of a collection and of a partition over two shards, and a collection dropped upstream while
+	// CDC was down
+	{
+		out = append(out, kafkaIdentity(plShardedScenario("drop:collection/2-shards", 2, func(i int) []plPack {
+			s := []plPack{pkIns(int64(1000 + i))}
+			if i == 0 {
+				s = append(s, pkDel(1010))
+			}
+			return append(s, pkDropColl(1050))
+		})))
+		sc := plShardedScenario("drop:partition/2-shards", 2, func(i int) []plPack {
+			if i == 0 {
+				return []plPack{pkInsPart(1000), pkDropPart(1050)}
+			}
+			return []plPack{pkDropPart(1050), pkIns(1060)}
+		})
+		withPartition(sc.Colls[0], true)
+		sc.Drivers = append(sc.Drivers, plDriver{Kind: "addpart", Coll: 0, Part: "p1", PartState: pb.PartitionState_PartitionCreated})
+		sc.HeavyBound = 1
+		out = append(out, kafkaIdentity(sc))
+		c := mkColl(101, "c1", []string{"src-dml_0", "src-dml_1"}, []string{"src-dml_0", "src-dml_1"})
+		c.Dropped, c.SeekMs = true, 990
+		out = append(out, kafkaIdentity(&plScenario{Name: "drop:restart-collection", SrcN: 2, TgtN: 2, Colls: []*plColl{c}, Drivers: []plDriver{{Kind: "start", Coll: 0}}}))
+		synth["kafka:drop:restart-collection"] = map[string]bool{"coll/default/c1": true}
 	}
 	// the same collection is announced a second time (list + watch both report it): no second replication, no second drop
 	{
